@@ -21,6 +21,13 @@ Qed.
 Lemma In_dec_nat : forall (x : nat) l, In x l \/ ~ In x l.
 Proof. intros x l. destruct (mem x l) eqn:M; [left; apply mem_In; exact M | right; intro H; apply mem_In in H; congruence]. Qed.
 
+Lemma NoDup_app_dj : forall (l1 l2 : list nat), NoDup l1 -> NoDup l2 -> (forall i, In i l1 -> ~ In i l2) -> NoDup (l1 ++ l2).
+Proof.
+  induction l1 as [|a l1 IH]; intros l2 N1 N2 DJ; [exact N2|]. inversion N1 as [|? ? NI N1']. subst. cbn. constructor.
+  - intro H. apply in_app_or in H. destruct H as [H|H]; [contradiction | apply (DJ a); [left; reflexivity | exact H]].
+  - apply IH; try assumption. intros i Hi. apply DJ. right. exact Hi.
+Qed.
+
 Section Part.
   Variable kos : list koracle.
   Variable cb : cbkind.
@@ -190,7 +197,7 @@ Section Part.
     map fst (g_rc g) = rev gone /\
     g_cb g = match cb with CbOk _ => rev gone | _ => [] end.
   Proof.
-    intros tmo rounds start gone alive g H. unfold wait_procs in H.
+    intros tmo rounds start gone alive g H. unfold wait_procs, wait_procs_from in H.
     destruct (bad_timeout tmo); [discriminate|].
     set (g0 := {| g_now := start; g_objs := map (fun _ => new_pobj) kos; g_gone := []; g_rc := [];
                   g_cb := []; g_sleeps := []; g_waits := [] |}) in *.
@@ -229,6 +236,76 @@ Section Part.
         * apply SUBo in A. apply SUB1 in A. apply in_seq in A. lia.
       + apply minus_In in Ha. destruct Ha as [Ha _]. apply SUB1 in Ha. apply in_seq in Ha. lia.
   Qed.
+  (* the same for ANY duplicate-free list of processes to start from ... *)
+  Theorem wait_procs_from_partition : forall alive0 tmo rounds start gone alive g,
+    NoDup alive0 ->
+    wait_procs_from kos cb fuel order alive0 tmo rounds start = (None, gone, alive, g) ->
+    NoDup gone /\ NoDup alive /\ (forall i, In i gone -> ~ In i alive) /\
+    (forall i, In i alive0 <-> In i gone \/ In i alive) /\
+    map fst (g_rc g) = rev gone /\
+    g_cb g = match cb with CbOk _ => rev gone | _ => [] end.
+  Proof.
+    intros alive0 tmo rounds start gone alive g ND0 H. unfold wait_procs_from in H.
+    destruct (bad_timeout tmo); [discriminate|].
+    set (g0 := {| g_now := start; g_objs := map (fun _ => new_pobj) kos; g_gone := []; g_rc := [];
+                  g_cb := []; g_sleeps := []; g_waits := [] |}) in *.
+    assert (P0 : PInv g0). { unfold PInv, cb_of. cbn. repeat split; try constructor. destruct cb; reflexivity. }
+    assert (CB : match cb with CbBad => False | _ => True end) by (destruct cb; try exact I; discriminate).
+    assert (H' : match outer kos cb fuel order rounds (match tmo with Some t => Some (start + t) | None => None end)
+                         alive0 g0 tmo 0 with
+                 | (Some e, alive, g, _) => (Some e, [], alive, g)
+                 | (None, alive, g, r) =>
+                   match sweep kos cb fuel (order r alive) g with
+                   | (Some e, g') => (Some e, [], alive, g')
+                   | (None, g') => (None, g_gone g', minus alive (g_gone g'), g')
+                   end
+                 end = (None, gone, alive, g)) by (destruct cb; try exact H; contradiction).
+    clear H.
+    destruct (outer _ _ _ _ _ _ _ _ _ _) as [[[[e1|] alive1] g1] r1] eqn:OU; [discriminate|].
+    assert (DJ0 : forall x, In x alive0 -> ~ In x (g_gone g0)) by (intros x _ []).
+    destruct (outer_part _ _ _ _ _ _ _ _ _ OU P0 ND0 DJ0) as (P1 & ND1 & I1 & S1 & DJ1 & COV1 & SUB1).
+    destruct (sweep kos cb fuel (order r1 alive1) g1) as [[e2|] g2] eqn:SW; [discriminate|].
+    inversion H'. subst gone alive g. clear H'.
+    destruct (perm_facts r1 alive1 g1 ND1 DJ1) as (NDo & DJo & SUBo).
+    destruct (sweep_part _ _ _ _ SW P1 NDo DJo) as (P2 & I2 & S2).
+    destruct P2 as (N2 & R2 & C2).
+    split; [exact N2|]. split; [apply NoDup_filter; exact ND1|].
+    split; [intros i Hi Ha; apply minus_In in Ha; apply Ha; exact Hi|].
+    split; [|split; [exact R2 | exact C2]].
+    intro i. split.
+    - intro Hs.
+      destruct (COV1 i Hs) as [A|A].
+      + destruct (In_dec_nat i (g_gone g2)) as [G|G]; [left; exact G | right; apply minus_In; split; assumption].
+      + left. apply I2. exact A.
+    - intros [Hg|Ha].
+      + destruct (S2 i Hg) as [A|A].
+        * destruct (S1 i A) as [[]|B]. exact B.
+        * apply SUBo in A. apply SUB1 in A. exact A.
+      + apply minus_In in Ha. destruct Ha as [Ha _]. apply SUB1 in Ha. exact Ha.
+  Qed.
+
+  (* ... hence for an input with ALIASES (an object listed twice, equal objects of one process): the returned
+     lists are duplicate-free, disjoint, and partition the set of DISTINCT processes of the input; returncode is
+     assigned, and the callback called, exactly once per gone process *)
+  Theorem wait_procs_of_partition : forall input tmo rounds start gone alive g,
+    wait_procs_of kos cb fuel order input tmo rounds start = (None, gone, alive, g) ->
+    NoDup gone /\ NoDup alive /\ (forall i, In i gone -> ~ In i alive) /\
+    (forall i, In i input <-> In i gone \/ In i alive) /\
+    (length gone + length alive = length (nodup Nat.eq_dec input))%nat /\
+    map fst (g_rc g) = rev gone /\
+    g_cb g = match cb with CbOk _ => rev gone | _ => [] end.
+  Proof.
+    intros input tmo rounds start gone alive g H. unfold wait_procs_of in H.
+    destruct (wait_procs_from_partition _ _ _ _ _ _ _ (NoDup_nodup Nat.eq_dec input) H) as (NG & NA & DJ & COV & RC & CBq).
+    split; [exact NG|]. split; [exact NA|]. split; [exact DJ|].
+    split; [intro i; rewrite <- COV; symmetry; apply nodup_In|].
+    split; [|split; assumption].
+    rewrite <- app_length. apply Permutation_length. apply NoDup_Permutation.
+    - apply NoDup_app_dj; assumption.
+    - apply NoDup_nodup.
+    - intro x. rewrite in_app_iff. symmetry. apply COV.
+  Qed.
+
 End Part.
 
 (* ---- wait_procs returns before timeout + one 40 ms poll, for every iteration order ---- *)
@@ -328,7 +405,7 @@ Section Deadline.
     wait_procs kos cb fuel order (Some tm) rounds start = (e, gone, alive, g) ->
     g_now g < start + tm + (1 # 25).
   Proof.
-    intros tm rounds start e gone alive g NN H. unfold wait_procs in H.
+    intros tm rounds start e gone alive g NN H. unfold wait_procs, wait_procs_from in H.
     assert (B : bad_timeout (Some tm) = false) by (cbn; apply negb_false_iff; apply Qle_bool_iff; exact NN).
     rewrite B in H.
     set (g0 := {| g_now := start; g_objs := map (fun _ => new_pobj) kos; g_gone := []; g_rc := [];
@@ -338,6 +415,41 @@ Section Deadline.
     { intros x Hx. apply in_seq in Hx. unfold kos in Hx. rewrite map_length in Hx. lia. }
     assert (MAIN : forall X : option wres * list nat * list nat * gst,
       match outer kos cb fuel order rounds (Some (start + tm)) (seq 0 (length kos)) g0 (Some tm) 0 with
+      | (Some e, alive, g, _) => (Some e, [], alive, g)
+      | (None, alive, g, r) =>
+        match sweep kos cb fuel (order r alive) g with
+        | (Some e, g') => (Some e, [], alive, g')
+        | (None, g') => (None, g_gone g', minus alive (g_gone g'), g')
+        end
+      end = X -> g_now (snd X) < start + tm + (1 # 25)).
+    { intros X HX.
+      destruct (outer _ _ _ _ _ _ _ _ _ _) as [[[e1 alive1] g1] r1] eqn:OU.
+      destruct (outer_time _ _ _ _ _ _ _ _ _ _ OU IN0 B0) as (B1 & IN1).
+      destruct e1 as [e1|].
+      - subst X. cbn [snd]. exact B1.
+      - destruct (sweep kos cb fuel (order r1 alive1) g1) as [[e2|] g2] eqn:SW;
+          (assert (SZ : g_now g2 == g_now g1)
+             by (eapply sweep_time; eauto; intros x Hx; apply IN1; eapply Permutation_in; [apply order_perm | exact Hx]));
+          subst X; cbn [snd]; lra. }
+    destruct cb.
+    - specialize (MAIN _ H). exact MAIN.
+    - specialize (MAIN _ H). exact MAIN.
+    - inversion H. subst. exact B0.
+  Qed.
+
+  Theorem wait_procs_from_deadline : forall alive0 tm rounds start e gone alive g,
+    0 <= tm -> (forall x, In x alive0 -> (x < length ps)%nat) ->
+    wait_procs_from kos cb fuel order alive0 (Some tm) rounds start = (e, gone, alive, g) ->
+    g_now g < start + tm + (1 # 25).
+  Proof.
+    intros alive0 tm rounds start e gone alive g NN IN0 H. unfold wait_procs_from in H.
+    assert (B : bad_timeout (Some tm) = false) by (cbn; apply negb_false_iff; apply Qle_bool_iff; exact NN).
+    rewrite B in H.
+    set (g0 := {| g_now := start; g_objs := map (fun _ => new_pobj) kos; g_gone := []; g_rc := [];
+                  g_cb := []; g_sleeps := []; g_waits := [] |}) in *.
+    assert (B0 : g_now g0 < start + tm + (1 # 25)) by (cbn; lra).
+    assert (MAIN : forall X : option wres * list nat * list nat * gst,
+      match outer kos cb fuel order rounds (Some (start + tm)) alive0 g0 (Some tm) 0 with
       | (Some e, alive, g, _) => (Some e, [], alive, g)
       | (None, alive, g, r) =>
         match sweep kos cb fuel (order r alive) g with
@@ -409,7 +521,7 @@ Section TruthBlind.
   Theorem wait_procs_truth_blind : forall tmo rounds start,
     wait_procs kos (CbOk b1) fuel order tmo rounds start = wait_procs kos (CbOk b2) fuel order tmo rounds start.
   Proof.
-    intros tmo rounds start. unfold wait_procs. destruct (bad_timeout tmo); [reflexivity|].
+    intros tmo rounds start. unfold wait_procs, wait_procs_from. destruct (bad_timeout tmo); [reflexivity|].
     rewrite outer_blind.
     destruct (outer kos (CbOk b2) fuel order rounds _ _ _ tmo 0) as [[[[e|] alive] g] r]; [reflexivity|].
     rewrite sweep_blind. reflexivity.
